@@ -38,7 +38,8 @@ def cases(draw, pools=False):
     if draw(st.integers(0, 30)) == 0:
         m = dict(m, rows=[])
     o = draw(c10.options(m["n"], len(m["sizes"])))
-    o["max_iters"] = min(o["max_iters"], 20 if small else 200)
+    if "max_iters" not in o["omit"]:
+        o["max_iters"] = min(o["max_iters"], 20 if small else 200)
     nnz = len(m["rows"])
     cs_pool = [3, 2, 1, 7, 5] if small else [7, 5, 13]
     chunksize = draw(st.sampled_from(cs_pool + cs_pool + [max(1, nnz - 1), max(1, nnz), nnz + 1, 10**7]))
@@ -255,6 +256,7 @@ def check_sched(case, ctx: Ctx):
 def cli_cases(draw):
     m = draw(c10.matrices(min_bins=4, max_bins=14, max_chroms=3))
     o = draw(c10.options(m["n"], len(m["sizes"])))
+    o["omit"] = []          # this route passes every option explicitly
     o["x0"] = None
     o["rescale"] = True
     o["max_iters"] = min(o["max_iters"], 100)
